@@ -301,13 +301,21 @@ class Check(PropertyCheck):
                   "ossl_literal_unless_leading_star (patterns not starting with `*` are compared literally), verified_identity_transport_independent (the TCP/TLS path and "
                   "the QUIC path — quic_start_server + QuicLayer.start_tls, now in the model as startServerQuic — verify the same reference identifier with the "
                   "same verify mode, and the QUIC plan always carries one), insecure_off_requires_verify_any_transport, and "
-                  "fail_sends_no_appdata (tunnel model of C14: after a handshake error the child is told the error, never success, and no plaintext "
-                  "was handed to the TLS engine). Model tied to the real ServerTLSLayer + TlsConfig by real in-memory handshakes over the certificate matrix "
+                  "fail_sends_no_appdata (tunnel model of C14, OpenConnection path — the layer answering the child's OpenConnection: after a handshake error the child is told the "
+                  "error, never success, failure hook + CloseConnection emitted, tunnel CLOSED, and nothing was handed to the TLS engine unless the child reacts to the error) and "
+                  "fail_closes_tunnel_eager (the layer started on an already open connection: hook + close right after the error, tunnel CLOSED, the stored events are then "
+                  "handed to the child in order, no successful completion among them; with nothing stored nothing was given to sendall). Model tied to the real ServerTLSLayer + TlsConfig by real in-memory handshakes over the certificate matrix "
                   "x SNI/address forms x trust configuration; chain validity from cryptography.x509.verification.")
     level_note = ("PARTIAL (relative to library laws): chain building, signature and time checks are OpenSSL's — they enter the model as the Boolean chainOk and are "
                   "compared per case with cryptography's independent verifier, not proved; OpenSSL's host-name check is a hand transcription (Model/C15.lean "
                   "osslMatches) validated only by the handshake matrix; ipaddress/idna classification of the server name: transcribed for ASCII names (classifyAscii, tied by `cls` cases), still a parameter for non-ASCII names (the codec's nameprep/punycode path) and for OpenSSL's acceptance of the host parameter. "
-                  "fail_sends_no_appdata is relative to C14's tunnel model and its run-to-completion assumption (C04). "
+                  "fail_sends_no_appdata / fail_closes_tunnel_eager are relative to C14's tunnel model and its run-to-completion assumption (C04); on the eager path whether a child that "
+                  "reacts to a stored event with SendData gets bytes onto the wire after the failure depends on the engine refusing to write (OpenSSL's behaviour, not one of "
+                  "`Laws`) — asked of the real code by the oracle only. ASSUMED LINK between the two models: `outcome = failed` (C15 decision model) corresponds to `do_handshake` "
+                  "raising, i.e. `K.handshake = .error` in the tunnel model — that a failed verification makes do_handshake fail is OpenSSL's behaviour (next to chainOk). "
+                  "`cn_ignored` holds by the shape of `accepts` (the CN field is never read) — the assurance for 'no Common Name fallback' is hostflags_are_both "
+                  "(NEVER_CHECK_SUBJECT regenerated from the code) plus the CN-only certificates of the handshake matrix, not that theorem. The driver runs `classifyAscii` (op cls) and "
+                  "`startServer`/`startServerQuic` with the harness-supplied classification; `classifyT`/`classifyServer` are two-line glue over those and the parameters `slow`, `hostOk`. "
                   "ORACLE AUDIT — lenient branches, each exercised by known_selftest(): (a) outcome hookRaised (the hook built no connection object) is accepted only "
                   "when the case's own server name is unusable (idna codec / OpenSSL's set1_host refuse it — asked of the libraries directly — or it is empty with "
                   "verification on); then still: no application data, child told the error, connection closed; (b) with ssl_insecure on nothing about chain/name is "
